@@ -304,7 +304,15 @@ def generate(seed, prop, h, runs):
         "fault_p": wl.pick([0.0, 0.6, 0.6, 1.0]),
         "country": pick_code(wl) if wl.chance(0.3) else None,
     }
-    return {"h": h, "prop": prop, "runs": [random_run(wl, fr, profile) for _ in range(runs)]}
+    spec = {"h": h, "prop": prop, "runs": [random_run(wl, fr, profile) for _ in range(runs)]}
+    rf = rng.sub("readfault")
+    if rf.chance(0.15) and len(spec["runs"]) > 1:
+        # fail-stop I/O error on one of the five table reads of one herd run (not the first run: state an earlier run
+        # left behind is what a "carry on regardless" reader would fall back to). Such a history runs without the
+        # in-process table cache of the harness, so that every run really reads its tables.
+        spec["read_fault"] = {"run": 1 + rf.randrange(len(spec["runs"]) - 1), "at": rf.randrange(5),
+                              "kind": rf.pick(["eio", "enoent", "parse"])}
+    return spec
 
 
 # --------------------------------------------------------------------------- execution
@@ -355,10 +363,10 @@ class TableCache:
             self._saved[name] = orig
 
             def make(orig, name):
-                def reader(filename):
-                    key = (name, filename)
+                def reader(*a, **k):
+                    key = (name, a, tuple(sorted(k.items())))
                     if key not in tc.cache:
-                        tc.cache[key] = orig(filename)
+                        tc.cache[key] = orig(*a, **k)
                         tc.real_reads += 1
                     return tc.cache[key].copy(deep=True)
 
@@ -508,10 +516,20 @@ def execute(spec, prop, monitor):
     violations, nontrivial, clauses, probes, statuses, max_resid = [], [], {}, {}, {}, {}
     sim_months = aborts = evaluations = 0
     seen_classes = set()
-    cache = TableCache().install()
+    rfault = spec.get("read_fault")
+    if rfault:
+        cache = None
+        tables = world.TableReads(log=log)
+        tables.install()
+    else:
+        tables = None
+        cache = TableCache().install()
     try:
         for i, run in enumerate(spec["runs"]):
             log.add("JOB_START", run=core.digest(run))
+            if rfault and rfault["run"] == i:
+                tables.start_job()
+                tables.plan[tables.count + rfault["at"]] = rfault["kind"]
             for op in run["program"].get("ops", []):
                 log.add("FAULT", kind="delivery_" + op["kind"], at=op["at"], target=op["target"])
             t = run_herd(run)
@@ -556,9 +574,11 @@ def execute(spec, prop, monitor):
                              "order": run["order"], "heads": run["heads"], "nontrivial": nt, "data": v.witness}
                 violations.append(v.to_json())
             log.add("JOB_END", status=t.status, digest=t.digest)
-        probes["real_table_reads"] = cache.real_reads
+        probes["real_table_reads"] = cache.real_reads if cache is not None else tables.count
+        if tables is not None:
+            tables.plan.clear()
     finally:
-        cache.uninstall()
+        (cache if cache is not None else tables).uninstall()
         world.leave_history(d)
     return {
         "violations": violations, "evaluations": evaluations, "nontrivial": nontrivial, "clauses": clauses,
@@ -575,6 +595,17 @@ def _sig(x, n=3):
 
 def shrink(spec):
     runs = spec["runs"]
+    if spec.get("read_fault"):
+        # with a read fault the history matters: drop the fault, then drop runs after the faulted one, then runs
+        # before it (one at a time), keeping the fault on the same run
+        rf = spec["read_fault"]
+        yield {"h": spec["h"], "prop": spec["prop"], "runs": runs}
+        if len(runs) > rf["run"] + 1:
+            yield {"h": spec["h"], "prop": spec["prop"], "runs": runs[:rf["run"] + 1], "read_fault": rf}
+        for k in range(rf["run"]):
+            if rf["run"] - 1 >= 1:
+                yield {"h": spec["h"], "prop": spec["prop"], "runs": runs[:k] + runs[k + 1:], "read_fault": dict(rf, run=rf["run"] - 1)}
+        return
     if len(runs) > 1:
         for r in runs:  # fewer runs per history: each run alone
             yield {"h": spec["h"], "prop": spec["prop"], "runs": [r]}
